@@ -70,7 +70,7 @@ fn hc(thorough: bool) -> HistCheck<'static> {
 
 pub fn run(ctx: &Ctx, col: &Collector) -> Meta {
     let h = hc(ctx.thorough);
-    run_hist(ctx, col, &h, ctx.n(6000, 100_000));
+    run_hist(ctx, col, &h, ctx.n(6000, 40_000));
     Meta {
         level: "exploration",
         rule: "unrestricted random histories over the whole public API with ~22% invalid arguments (unknown / duplicate names, unknown `after`, two attributes of one dimension, unknown names in policies), edits without update (structure, secrets and public keys out of sync), old public keys, forged and stale-master-key refreshes; for every call the model predicts Ok or Err from the documented contract and only that distinction is asserted. Non-trivial = history with at least two distinct predicted-error classes and one of: refresh after a deletion, refresh of a key holding a removed revision, forged refresh, born-disabled update, rekey of an unheld right, encapsulation for a disabled attribute; distinct by the whole case".into(),
